@@ -70,7 +70,13 @@ def prior_chk():
     return _PRIOR['c']
 
 
-def run_conv(mods, chk, opts, ctx, canary=False, history=False):
+def cli_argv(gradp, reactions, floor, out='outplt'):
+    # the flags are store_false / store_true switches: -ip turns the pressure gradient OFF, -ir turns reactions ON, -f turns flooring OFF
+    return (['chk2plt', '--checkpoint', 'run/chk00005', '--plotfile_ref', 'run/plt_ref', '--output', out]
+            + ([] if gradp else ['--include_gradp']) + (['--include_reactions'] if reactions else []) + ([] if floor else ['--floor_massfracs']))
+
+
+def run_conv(mods, chk, opts, ctx, canary=False, history=False, cli=False):
     gradp, reactions, floor, source, default_out = opts
     mod = mods['amr_kitchen.chk2plt.chk2plt']
     Taster = mods['amr_kitchen.taste.taste'].Taster
@@ -111,7 +117,20 @@ def run_conv(mods, chk, opts, ctx, canary=False, history=False):
                 pass
             fs.audit.clear()
         try:
-            mod.chk2plt('run/chk00005', gradp=gradp, species_reactions=reactions, floor_massfracs=floor, **kw)
+            if cli:
+                import sys
+                what = ' '.join(cli_argv(gradp, reactions, floor))
+                old_argv = sys.argv
+                sys.argv = cli_argv(gradp, reactions, floor)
+                try:
+                    mods['amr_kitchen.chk2plt.cli'].main()
+                finally:
+                    sys.argv = old_argv
+            else:
+                mod.chk2plt('run/chk00005', gradp=gradp, species_reactions=reactions, floor_massfracs=floor, **kw)
+        except SystemExit as e:
+            obl.fail('%s exited with %r' % (what, e.code))
+            return obl
         except Exception as e:
             obl.fail('%s raised %s: %s' % (what, type(e).__name__, str(e)[:140]))
             return obl
@@ -188,6 +207,18 @@ def run_case(case):
                 if sig not in viol:
                     viol[sig] = {'signature': sig, 'what': msg[:400], 'opts': list(opts), 'model': obl.failed[0][1] or ctx.model()}
 
+    # the command line (species from a reference plotfile, explicit output): defaults and every switch flipped
+    for opts in [(True, False, True, 'plotfile', False), (False, True, False, 'plotfile', False)]:
+        def cpath(ctx, opts=opts):
+            return run_conv(mods, chk, opts, ctx, cli=True)
+        results, exhaustive, stats = core.explore(cpath, max_paths=8)
+        res.add_explore(results, exhaustive, stats)
+        for ctx, obl in results:
+            res.add_obl(obl)
+            if obl.failed and not ctx.flags:
+                sig = 'C17/cli/%s' % ('defaults' if opts[0] else 'switches')
+                if sig not in viol:
+                    viol[sig] = {'signature': sig, 'what': obl.failed[0][0][:400], 'opts': list(opts), 'model': obl.failed[0][1] or ctx.model(), 'cli': True}
     for opts in [(False, False, True, 'list', False), (True, True, True, 'list', False)][:1 if common.TIER == 'quick' else 2]:
         def hpath(ctx, opts=opts):
             return run_conv(mods, chk, opts, ctx, history=True)
@@ -230,6 +261,9 @@ def run_case(case):
                "    chk2plt('run/chk00005', gradp=%r, species_reactions=%r, floor_massfracs=%r, %s%s)\n"
                "assert tree_hash('run/chk00005') == before, 'the checkpoint was modified'\n"
                % (gradp, reactions, floor, kw, '' if default_out else ", pltdir='outplt'"))
+        if v.get('cli'):
+            run = run.replace("    chk2plt('run/chk00005', gradp=%r, species_reactions=%r, floor_massfracs=%r, %s%s)\n" % (gradp, reactions, floor, kw, '' if default_out else ", pltdir='outplt'"),
+                              "    import sys\n    from amr_kitchen.chk2plt import cli\n    sys.argv = %r\n    cli.main()\n" % (cli_argv(gradp, reactions, floor),))
         val = common.Valuation(v.get('model'))
         d = replay_lib.make_tool_replay('C17', sig, v['what'], inputs, run,
                                         {'kind': 'tree', 'tree_exp': expected(chk, gradp, reactions, floor), 'compare': 'close' if floor else 'bits',
